@@ -679,7 +679,22 @@ func BitsCoord(r *R) float64 {
 func FiniteBitsCoord(r *R) float64 {
 	for {
 		var f float64
-		switch r.Intn(14) {
+		switch r.Intn(15) {
+		case 14:
+			// the top of the range (the corners of a "whole plane" rectangle): +-MaxFloat64, the
+			// doubles just below it, its half, and values in the last binade - two such ordinates
+			// in one position have a norm beyond the float64 range
+			switch r.Intn(4) {
+			case 0:
+				f = math.MaxFloat64
+			case 1:
+				f = math.Float64frombits(math.Float64bits(math.MaxFloat64) - uint64(r.IntRange(1, 1000)))
+			case 2:
+				f = math.MaxFloat64 / 2
+			default:
+				f = r.Range(0.9e308, 1.797e308)
+			}
+			f *= float64(1 - 2*r.Intn(2))
 		case 13:
 			// the doubles within a few ulps (up to 2^20 ulps) of a limit that code likes to test
 			// against: +-180, +-90, +-360, +-1, +-0.5, +-85, +-1e6 - just inside and just outside
